@@ -523,7 +523,19 @@ where
 
         // calculate the svd
         let svd_epsilon = self.svd_epsilon;
-        let current_svd = Phi_w.as_ref().map(|Phi_w| Phi_w.clone().svd(true, true));
+        // the decomposition of a finite matrix whose entries span too many orders
+        // of magnitude can contain singular values that are not finite. Those make
+        // the sorting of the singular values panic, so such a decomposition
+        // counts as failed
+        let current_svd = Phi_w.as_ref().and_then(|Phi_w| {
+            let mut svd = Phi_w.clone().svd_unordered(true, true);
+            if svd.singular_values.iter().all(|value| value.is_finite()) {
+                svd.sort_by_singular_values();
+                Some(svd)
+            } else {
+                None
+            }
+        });
         let linear_coefficients = current_svd
             .as_ref()
             .and_then(|svd| svd.solve(&self.Y_w, svd_epsilon).ok());
@@ -669,7 +681,19 @@ where
 
         // calculate the svd
         let svd_epsilon = self.svd_epsilon;
-        let current_svd = Phi_w.as_ref().map(|Phi_w| Phi_w.clone().svd(true, true));
+        // the decomposition of a finite matrix whose entries span too many orders
+        // of magnitude can contain singular values that are not finite. Those make
+        // the sorting of the singular values panic, so such a decomposition
+        // counts as failed
+        let current_svd = Phi_w.as_ref().and_then(|Phi_w| {
+            let mut svd = Phi_w.clone().svd_unordered(true, true);
+            if svd.singular_values.iter().all(|value| value.is_finite()) {
+                svd.sort_by_singular_values();
+                Some(svd)
+            } else {
+                None
+            }
+        });
         let linear_coefficients = current_svd
             .as_ref()
             .and_then(|svd| svd.solve(&self.Y_w, svd_epsilon).ok());
